@@ -22,12 +22,13 @@ Definition of_item (i : item) : sx := match i with IP c => of_pos c | IS l => L 
 
 Definition u_c05 (k : Z) (a : sx) : sx :=
   match k, a with
-  (* 200: Benham (fx votes) *)
-  | 0, L [fx; v] => match as_bool fx, as_zrprofile v with
-                    | Some fx, Some v => of_hres (benham fx v) | _, _ => bad_input end
-  (* 201: TidemanAlternative (fx votes n_seats) *)
-  | 1, L [fx; v; n] => match as_bool fx, as_zrprofile v, as_nat n with
-                       | Some fx, Some v, Some n => of_hres (tideman_alt fx v n) | _, _, _ => bad_input end
+  (* 200: Benham (fx sc votes) *)
+  | 0, L [fx; sc; v] => match as_bool fx, as_bool sc, as_zrprofile v with
+                        | Some fx, Some sc, Some v => of_hres (benham fx sc v) | _, _, _ => bad_input end
+  (* 201: TidemanAlternative (fx sc tr votes n_seats) *)
+  | 1, L [fx; sc; tr; v; n] => match as_bool fx, as_bool sc, as_bool tr, as_zrprofile v, as_nat n with
+                               | Some fx, Some sc, Some tr, Some v, Some n => of_hres (tideman_alt fx sc tr v n)
+                               | _, _, _, _, _ => bad_input end
   (* 202: RANKED_TO_CONDORCET (votes) -> pairwise dictionary *)
   | 2, L [v] => match as_zrprofile v with
                 | Some v => ok (L (map (fun pn : pair * Z => L [L [of_pos (fst (fst pn)); of_pos (snd (fst pn))]; A (snd pn)]) (pairwise v)))
